@@ -8,21 +8,22 @@ from harness.drivers import bundler_terms as bt
 ID = "C16"
 PROP_FILE = "Props/C16.v"
 THEOREMS = ["C16_descriptor_records_configuration", "C16_configure_redescribes", "C16_descriptor_uids_below_supply",
-            "C16_registered_is_latest", "C16_events_follow_latest_descriptor", "C16_a_refuted"]
+            "C16_registered_is_latest", "C16_events_follow_latest_descriptor"]
 COQ_IMPORTS = bt.imports() + "\nFrom BV Require Import Engine.BundlerSpec."
 PARALLEL = False
 MODELLED = (
-    "RunBundler.configure / _prepare_stream / _cache_read_config / monitor's emit_event closure / save as modelled in "
+    "RunBundler.configure / _prepare_stream / _cache_read_config / monitor's emit_event closure (repaired: it uses "
+    "self._descriptors[name].compose_event at call time) / save as modelled in "
     "coq/theories/Engine/Bundler.v (see C15). Device world: a device's configuration changes only through the "
     "configure message (RunEngine._configure: guard, obj.configure, RunBundler.configure); read_configuration() of a "
     "Configurable returns that value, other devices have no configuration; changes behind the bundler's back (e.g. a "
     "`set` on a configuration signal) are outside the model. Streams named 'interruptions' by the user are excluded "
     "(hypothesis no_name0). Old-style flyer streams (_local_descriptors) are not modelled.")
-RULE = ("corpus (C16-a witness); exhaustive: all op sequences of length <= 3 (quick; + 300 sampled of length 4..6) / <= 4 "
+RULE = ("corpus (the pre-repair C16-a witness as regression); exhaustive: all op sequences of length <= 3 (quick; + 300 sampled of length 4..6) / <= 4 "
         "(thorough; + 3000 sampled) over {monitor o1 as s5, o1 fires, create s1, read o1, read o2, save, configure o1, "
         "configure o2, unmonitor o1} after open_run; random walks, configure profile (several bundled streams sharing "
         "devices, monitors, declared streams, collects) and malformed stream. Every case: full per-op comparison of model "
-        "vs real RunBundler, plus equality of the Coq finding-class predicate finding_C16_a with its Python mirror. "
+        "vs real RunBundler. "
         "non-trivial = a successful configure that re-described at least one stream; distinct by op list")
 
 ALPHABET = [("monitor", 1, 5, False), ("mon_event", 1, ((1, 9),)), ("create", 1, ()), ("read", 1, ((1, 11),), ()),
@@ -49,14 +50,7 @@ def impl(case):
 
 
 def coq_term(case, obs):
-    t = bt.agrees_term(case, obs)
-    if t.startswith("false"):
-        return t
-    # the Python mirror of the finding class must agree with the Coq predicate on every case
-    cls = "finding_C16_a (env_of %s) (init %s %s) [] %s" % (
-        bt.cdevs(case["devs"]), bt.cb(case["strict"]), bt.cb(case["record"]), bt.cl(case["ops"], bt.cop))
-    return "(%s) && (has_unmodelled (run_obs %s) || Bool.eqb (%s) %s)" % (
-        t, bt.case_args(case), cls, bt.cb(bo.c16_class_a(case, obs)))
+    return bt.agrees_term(case, obs)
 
 
 def oracle(case, obs):
@@ -64,7 +58,7 @@ def oracle(case, obs):
 
 
 def finding(case, obs):
-    return bo.c16_finding(case, obs)
+    return None          # C16-a is repaired (fixes/C16-a.diff); its witness stays in corpus/C16.jsonl
 
 
 def nontrivial(case, obs):
